@@ -428,6 +428,10 @@ def _text_cases():
            ('removed-line-above-an-ignorable-pair', ['alpha', 'something else', 'beta 12 ms', 'delta'], ['SKIP x', 'alpha', 'gamma ray', 'beta 12 ms', 'delta']),
            ('trailing-empty-element', ref + [''], list(ref)),
            ('trailing-empty-both', ref + [''], ref + ['']),
+           ('final-line-of-blanks-only-in-actual', ref + ['   '], list(ref)),
+           ('final-line-of-blanks-only-in-reference', list(ref), ref + ['\t']),
+           ('final-lines-of-different-blanks', ref + ['  '], ref + ['\t']),
+           ('final-line-of-blanks-then-empty', ref + [' ', ''], ref + ['']),
            ('empty-line-inside', ['alpha', '', 'beta 12 ms', 'gamma ray', 'delta'], list(ref)),
            ('unicode-changed', ['alpha', 'beta 12 ms', 'gamma ray', 'délta'], ['alpha', 'beta 12 ms', 'gamma ray', 'délta']),
            ('comment-line-added', ['# note', 'alpha', 'beta 12 ms', 'gamma ray', 'delta'], list(ref)),
